@@ -1,5 +1,6 @@
 //! C10 — seeking and position reporting are coherent with the keystream (CTR flavours, BelT-CTR).
 use crate::bfs;
+use crate::ensure;
 use crate::ctx::*;
 use crate::seekm::*;
 use crate::util::*;
@@ -84,7 +85,85 @@ pub fn run(ctx: &Ctx) -> Outcome {
         rep.sample(case_json(vec![("type", format!("StreamCipherCoreWrapper<{}>", d.ty).into()), ("positions", J::Arr(positions.iter().map(|p| J::Str(p.to_string())).collect())), ("lengths", J::Arr(lens.iter().map(|l| (*l).into()).collect())), ("seek_types", J::Arr(SEEK_TYS.iter().map(|t| t.s().into()).collect())), ("example_history", hs(&[SAct::Seek(SeekTy::U64, positions[positions.len() / 2]), SAct::Apply(bs + 1, Kind::B2b), SAct::Seek(SeekTy::I32, 1)]).into())]));
         rep.finish()
     });
+    // ---- core level: set_block_pos, then every core call form must produce the keystream OF that position ----
+    let rcore = par_map(&units, |(cfg, d)| {
+        let mut rep = Report::new(format!("{}/{}/core-after-set_block_pos", cfg.name, d.mode));
+        let bs = cfg.bs;
+        let par = par_of(cfg);
+        let key = &keys(seed, cfg.key_len)[0];
+        let c = rf::Ciph::new(cfg, key);
+        let iv = pattern(seed, 0x1717, bs);
+        let limit = rf::ctr_limit_blocks(d.w);
+        let nmax = 2 * par + 2;
+        let data = pattern(seed, 0xC10C, nmax * bs);
+        let mut poss: Vec<u128> = vec![0, 1, par as u128, par as u128 + 1, 255, 256, (1 << 16) - 1];
+        for b in [(1u128 << 32) - 1, 1u128 << 32, (1u128 << 64) - 1, 1u128 << 64] {
+            poss.push(b);
+        }
+        poss.retain(|p| p.checked_add(nmax as u128 + 1).map(|e| e < limit).unwrap_or(false));
+        let mut counts = vec![1usize, 2, par, par + 1, 2 * par + 1];
+        counts.sort();
+        counts.dedup();
+        for &p in &poss {
+            for &n in &counts {
+                let ks = if d.mode == "belt" { rf::belt_ks(&c, &iv, p, 0, n * bs) } else { rf::ctr_ks(&c, &iv, d.w, d.be, p, 0, n * bs) };
+                let want = rf::x(&data[..n * bs], &ks);
+                // forms: 0..3 apply_keystream_blocks (four kinds), 4 write_keystream_blocks, 5 single-block calls, 6 write_keystream_block
+                // calls, 7.. caller-supplied closures; each also after a first block generated elsewhere (seek AWAY then back)
+                for form in 0..10 {
+                    for detour in [false, true] {
+                        rep.case(|| {
+                            let mut core = crate::rec::core(cfg, d, key, &iv);
+                            if detour {
+                                ensure!(core.set_block_pos(p + 3), "MACHINERY", "harness: position fits");
+                                let mut one = dirty(bs);
+                                core.write_block(&mut one);
+                            }
+                            ensure!(core.set_block_pos(p), "MACHINERY", "harness: position fits");
+                            ensure!(core.get_block_pos() == Some(p), format!("position_wrong/{}/core", d.mode), "{}: get_block_pos() right after set_block_pos({}) is {:?}", d.ty, p, core.get_block_pos());
+                            let mut out = data[..n * bs].to_vec();
+                            let mut ksb = dirty(n * bs);
+                            match form {
+                                0..=3 => {
+                                    let k = KINDS[form];
+                                    let inp = out.clone();
+                                    if !k.in_place() {
+                                        out = dirty(n * bs);
+                                    }
+                                    let _ = core.apply_blocks(k, &inp, &mut out);
+                                }
+                                4 => {
+                                    core.write_blocks(&mut ksb);
+                                    out = rf::x(&out, &ksb);
+                                }
+                                5 => {
+                                    for b in out.chunks_mut(bs) {
+                                        core.apply_block(Kind::InPlace, &[], b);
+                                    }
+                                }
+                                6 => {
+                                    for b in ksb.chunks_mut(bs) {
+                                        core.write_block(b);
+                                    }
+                                    out = rf::x(&out, &ksb);
+                                }
+                                f => {
+                                    core.write_blocks_closure([1u8, 2, 6][f - 7], &mut ksb);
+                                    out = rf::x(&out, &ksb);
+                                }
+                            }
+                            ensure!(out == want, format!("keystream_wrong/{}/core", d.mode), "{}: set_block_pos({}){} then {} blocks through core form {}: {} want the keystream of blocks {}.. = {} (first diff at byte {:?})", d.ty, p, if detour { " (after a block generated at another position)" } else { "" }, n, form, short(&out), p, short(&want), first_diff(&out, &want));
+                            ensure!(core.get_block_pos() == Some(p + n as u128), format!("position_wrong/{}/core", d.mode), "{}: get_block_pos() after set_block_pos({}) and {} blocks is {:?}", d.ty, p, n, core.get_block_pos());
+                            Ok(())
+                        });
+                    }
+                }
+            }
+        }
+        rep.finish()
+    });
     let mut o = merge(reports);
+    extend(&mut o, merge(rcore));
     o.rule = "merged BFS per seekable byte-level cipher (six CTR aliases, BeltCtr) from the initial state and every state reached: actions {try_seek::<T>(p) for T in i32,u32,u64,u128,usize and p in the boundary alphabet (block edges, 2^31, 2^32, 2^32*bs, 2^64, END-k) representable in T; try_apply_keystream / apply_keystream_b2b of n bytes for n in {0,1,bs-1,bs,bs+1,2bs+3,(2PAR+1)bs}}; on every transition: bytes = reference keystream at the reference position; try_current_pos::<T>() for all five T is Ok(exact) or Err only when the value (or, tolerated and counted, the end of its block) does not fit T; get_block_pos and remaining_blocks exact; a seek whose block index does not fit the counter returns Err and leaves the state unchanged; counter blocks fed to the harness cipher equal layout(IV, index) in order".into();
     o.configs = cfgs.iter().map(|c| c.name.clone()).collect();
     o.bounds = vec![("depth".into(), J::Int(tier.pick(3, 4))), ("ivs".into(), J::Int(2)), ("state_cap_per_machine".into(), J::Int(tier.pick(4_000, 60_000)))];
